@@ -254,7 +254,10 @@ class Monitor:
         ctx = self.ctx
         if prop == "C06" and self.judge_c06 == "taint":
             ctx.count("c06_failures_used_for_taint_only")
-            return
+            if "dequantize_raises" not in str(sig.get("kind", "")):
+                return
+            # a result that cannot be dequantized equals nothing: that is C05's business too, not only C06's
+            prop, sig = "C05", dict(sig, kind="result_cannot_be_dequantized")
         sig = dict(sig)
         sig["prop"] = prop
         if self.step_info:
